@@ -78,12 +78,21 @@ build_one() { # id -> builds $BIN
   local flags=(-tags verif)
   [ "$RACE" = 1 ] && flags+=(-race)
   mkdir -p "$ROOT/.work/bin"
+  # VERIF_REPO_DIR (development only: evaluating a seeded change in a scratch worktree without touching /repo)
+  local mf=()
+  BIN="$ROOT/.work/bin/$PKG.test"
+  if [ "$REPO" != /repo ]; then
+    local alt="$ROOT/.work/alt-$$.mod"
+    sed "s#=> /repo#=> $REPO#" "$H/go.mod" > "$alt"
+    sort -u "$REPO/go.sum" "$H/extra.sum" > "${alt%.mod}.sum"
+    mf=(-modfile="$alt")
+    BIN="$ROOT/.work/bin/$PKG-alt-$$.test"
+  fi
   if [ "$PKG" = c19 ]; then
     # static scan of the module's sources -> generated schema registry (new schemas are picked up automatically)
-    (cd "$H" && "$GO" run ./tools/scan "$REPO" github.com/pancsta/asyncmachine-go "$H/c19/registry_gen.go") || return 2
+    (cd "$H" && "$GO" run "${mf[@]}" ./tools/scan "$REPO" github.com/pancsta/asyncmachine-go "$H/c19/registry_gen.go") || return 2
   fi
-  BIN="$ROOT/.work/bin/$PKG.test"
-  (cd "$H" && "$GO" test -c "${flags[@]}" -o "$BIN" "./$PKG")
+  (cd "$H" && "$GO" test -c "${mf[@]}" "${flags[@]}" -o "$BIN" "./$PKG")
 }
 
 cmd_setup() {
